@@ -18,9 +18,24 @@ NPOS = 12
 CANCEL_TEXT = 'Killed by future being cancelled'
 
 
+def eff_key(run, reqs, r):
+    """effective time of a kill: immediately for kill(); for future().cancel() the kill is issued by a done-callback
+    that the loop runs after the callbacks already queued (FIFO), i.e. during tick r.tick + queue_len"""
+    if r.act == sched.CANCEL:
+        return (cancel_tick(r), 10 ** 6)
+    return (r.tick, reqs.index(r))
+
+
+def cancel_tick(r):
+    """tick during which the kill triggered by future().cancel() runs (FIFO queue; +1 if issued inside a callback)"""
+    return r.tick + r.queue_len + (0 if r.where == GAP else 1)
+
+
 def facts_of(run, reqs, first):
-    after = [r for r in reqs if r.applied and r is not first and r.tick is not None and (r.tick, reqs.index(r)) > (first.tick, reqs.index(first))]
-    before = [r for r in reqs if r.applied and r is not first and r not in after]
+    k0 = eff_key(run, reqs, first)
+    others = [r for r in reqs if r.applied and r is not first and r.tick is not None]
+    after = [r for r in others if (r.tick, reqs.index(r)) > (first.tick, reqs.index(first))]
+    before = [r for r in others if r not in after]
     return dict(
         kill_where=sched.WHERE_NAMES[first.where],
         kill_by_cancel=first.act == sched.CANCEL,
@@ -36,14 +51,26 @@ def facts_of(run, reqs, first):
 
 def oracle(run, reqs):
     p = run.proc
-    killers = [r for r in reqs if r.applied and r.act in (sched.KILL, sched.CANCEL) and not r.pre['terminated']]
-    killers.sort(key=lambda r: (r.tick, reqs.index(r)))
+    killers = []
+    for r in reqs:
+        if not r.applied or r.act not in (sched.KILL, sched.CANCEL) or r.pre['terminated']:
+            continue
+        if r.act == sched.CANCEL:
+            if r.ret is not True:
+                continue  # the future was already done: nothing was cancelled
+            teff = cancel_tick(r)
+            if run.terminal_tick is not None and run.terminal_tick < teff:
+                # the process terminated by itself before the loop got to run the cancel's kill
+                killed_by_cancel = p.state == S.KILLED and p.killed_msg()[MESSAGE_TEXT_KEY] == CANCEL_TEXT
+                if not killed_by_cancel:
+                    continue
+        killers.append(r)
+    killers.sort(key=lambda r: eff_key(run, reqs, r))
     for r in reqs:
         if r.applied and r.act == sched.KILL and r.exc is not None:
             first = killers[0] if killers else r
             raise Violation('kill_raised', exc=type(r.exc).__name__, live=not r.pre['terminated'], **facts_of(run, reqs, first))
     if not killers:
-        # no kill took place on a live process: nothing to check except the final probe below
         first = None
     else:
         first = killers[0]
@@ -54,10 +81,16 @@ def oracle(run, reqs):
             raise Violation('kill_lost', final=str(st), live_at_end=not p.has_terminated(), **f)
         if st == S.EXCEPTED and not isinstance(p.exception(), programs.Boom):
             raise Violation('kill_ended_excepted', exc=type(p.exception()).__name__, **f)
-        allowed_enters = 0 if first.where == GAP else 1
-        enters_after = [t for t in programs.TRACE[first.pre['trace_len']:] if t[1] == 'enter']
-        if len(enters_after) > allowed_enters:
-            raise Violation('step_started_after_kill', n=len(enters_after), **f)
+        # no further state is entered for execution once the kill has been requested (a kill issued from inside a
+        # listener notification arrives in the middle of a transition: the state being entered is the one allowed)
+        if first.act == sched.CANCEL:
+            later = [e for e in run.entered if e[2] >= cancel_tick(first) and e[1] in (S.RUNNING, S.WAITING)]
+            allowed = 0
+        else:
+            later = [e for e in run.entered[first.pre['n_entered']:] if e[1] in (S.RUNNING, S.WAITING)]
+            allowed = 0 if first.where == GAP else 1
+        if len(later) > allowed:
+            raise Violation('step_started_after_kill', n=len(later), **f)
         if st == S.KILLED:
             text = p.killed_msg()[MESSAGE_TEXT_KEY]
             want = CANCEL_TEXT if first.act == sched.CANCEL else first.txt
@@ -189,7 +222,6 @@ SOLVER_ROLE = 'selector role for placements/actions; data role for the kill text
 EXPLANATION = 'kill is never lost / never raises / reports truthfully / text recorded; future().cancel() == kill; final probing kill from every live end configuration'
 ASSUMPTIONS = ['environment policy at idle ticks: play a paused process, resume a waiting one / complete its awaited future',
                'a kill issued from inside a listener notification (mid-transition) may let at most the one step that is being entered run']
-REQUIRED_WITNESSES = ['kill_during_step', 'kill_from_listener', 'kill_while_paused', 'kill_while_waiting', 'kill_returned_future']
+REQUIRED_WITNESSES = ['future_cancel_killed', 'kill_during_step', 'kill_from_listener', 'kill_while_paused', 'kill_while_waiting', 'kill_returned_future']
 LEVEL_TEXT = ('bounded exhaustive symbolic exploration of schedules containing a kill (or future cancel) against every other control request: '
               'kill never raises, the process ends KILLED before any further step starts, returned value/future truthful, text recorded, and no live end configuration is unkillable')
-WIP = True  # not claimed in MANIFEST until its violations are triaged
